@@ -32,7 +32,7 @@ A18_QUAD = ['', 'a', 'g', 'A', '1', 'a1', 'ab', '-', '.', 'a-b', 'a.b',
 # documented module-level functions the Extractor methods delegate to
 P_OVER = ['^[a-z]+$', '^[a-z]$', '^a$', '^[0-9a-f]+$', '^[0-9]+$', '^.+$',
           '^[a-z]+\\-[a-z]+$', '^a.*$', '.*b', '[a-z0-9]{2}']
-E_OVER = ['a', 'b', 'ab', '1', '12', 'a1', 'a-b', 'ba']
+E_OVER = ['a', 'b', 'ab', '1', '12', 'a1', 'a-b', 'Ab']
 
 PRUNE_OPTS = [{'max_patterns': 1}, {'min_strings_per_pattern': 2},
               {'max_patterns': 2, 'tag': True}]
@@ -196,6 +196,15 @@ class C18(Check):
             return fn(*a, **kw)
 
     def run_case(self, case):
+        if AB.Watchdog.tripped():
+            R = Res()
+            R.unspec += 1
+            R.out('not-run:after-%d-timeouts' % AB.Watchdog.max_trips)
+            return R
+        with AB.Watchdog(20):
+            return self.run_case_(case)
+
+    def run_case_(self, case):
         self.rexpy = self.fresh_module()
         if case.get('k') == 'fn':
             return self.run_fn(case)
